@@ -238,6 +238,12 @@ REQUIRED_THEOREMS["C03"] = ["C03_acyclic", "C03_forest_reading", "C03_step_delet
 REQUIRED_THEOREMS["C04"] += ["C04_import_inv", "C04_import_inv_table", "C04_import_ids", "C04_import_needs_forward",
                              "C04_import_needs_binary"]   # R6I: an imported solution satisfies Inv
 REQUIRED_THEOREMS["C03"] += ["C03_reach_imported", "C03_reach_imported_table"]
+# R7S: construction (which features get registered / activated / computed; from_tracks; enable_features)
+REQUIRED_THEOREMS["C10"] += ["C10_construct_registry", "C10_construct_registry_prebuilt", "C10_construct_position_registered",
+                             "C10_construct_enable_sets_special_keys", "C10_construct_enable_registry"]
+REQUIRED_THEOREMS["C04"] += ["C04_construct_ids", "C04_construct_ids_segments", "C04_from_tracks_ids_active"]
+REQUIRED_THEOREMS["C05"] += ["C05_construct_ids", "C05_construct_ids_components"]
+REQUIRED_THEOREMS["C06"] += ["C06_construct_book_from_graph"]
 # R7T: the TracksController entry points as compositions of user actions
 REQUIRED_THEOREMS["C03"] += ["C03_controller_expand", "C03_controller_reach", "C03_controller_is_valid_sound"]
 REQUIRED_THEOREMS["C02"] += ["C02_controller_steps"]
